@@ -13,7 +13,7 @@ for f in sorted(glob.glob('/verif/target/mut*.txt')):
         if m: res[cur[0]][-1][2].append(m.group(1))
         m=re.match(r'exit=(\d+)',l)
         if m: res[cur[0]][-1][1]=int(m.group(1))
-notes=json.load(open('/verif/seeded/notes.json')) if os.path.exists('/verif/seeded/notes.json') else {}
+notes=json.load(open('/verif/seeded_notes.json')) if os.path.exists('/verif/seeded_notes.json') else {}
 for n,runs in res.items():
     p=f'/verif/seeded/{n}/meta.json'
     if not os.path.exists(p): continue
